@@ -178,46 +178,57 @@ def check_retention(prog, r):
                 r.fail(prog.name(sl), "retention:%s" % what,
                        "%s passed to unregister_peer derives from %s without consulting gr_on_disconnect(shutdown_reason, ..): after a hard reset, admin shutdown or non-Cease error "
                        "the GR families are still kept as stale, and no restart timer is armed for them" % (what, ",".join(src) or show(e, 60)), fv.loc(bi))
-    # gr_on_disconnect: `applies` true only for the listed reasons
+    # gr_on_disconnect as a decision table (analysis/predicates.py): Some(gr) = helper mode.  Necessary: always for a plain
+    # TCP / IO drop; never for AdminShutdown / FsmError; for a NOTIFICATION (sent or received) or a hold-timer expiry only when
+    # the peer set the N bit (notification_enabled), and never when the NOTIFICATION is a hard reset.
+    from .. import predicates
     gk = prog.one(r"rustybgpd::event::gr_on_disconnect")
-    gv = view(prog, gk)
-    r.analysed(gv.name)
-    brs = branches(gv)
-    reasons = {}
-    for l, n in gv.local_name.items():
-        if n != "applies":
-            continue
-        for bi, si, s in gv.defs().get(l, []):
-            if bi not in gv.live or si == "t":
+    r.analysed(prog.name(gk))
+    REASONS = {"RemoteNotification", "LocalNotification", "HoldTimerExpired", "IoError", "AdminShutdown", "FsmError"}
+
+    def cls(e, labels, fvx):
+        lab = set(labels)
+        calls = expr_calls(e)
+        if e[0] == "discr" and e[2] and e[2].endswith("fsm::SessionDownReason") and "else" not in lab:
+            return ("reason", frozenset(lab))
+        if e[0] == "discr" and e[2] and e[2].endswith("Option") and lab <= {"Some", "None"} and len(lab) == 1 and not calls and fvx.local_name.get(1) in expr_vars(e):
+            return ("down", lab == {"Some"})
+        if len(lab) == 1 and lab <= {"true", "false"}:
+            t_ = lab == {"true"}
+            if e[0] in ("field", "deref", "var") and "notification_enabled" in (expr_fields(e) + expr_vars(e)):
+                return ("n_bit", t_)
+            if e[0] == "call" and e[1].endswith("is_hard_reset"):
+                return ("hard_reset", t_)
+        return None
+    rws, gv = predicates.rows(prog, gk, cls)
+    if rws is None:
+        r.unanalysable("gr_on_disconnect: too many paths", gv.loc())
+    else:
+        bad = []
+        n_some = 0
+        for facts, res, unknown in rws:
+            if res is None:
+                bad.append(("a path's result could not be read", facts))
                 continue
-            e = Renderer(gv, depth=8).rvalue(s["rv"], 8)
-            labs = set()
-            for g, labels, how in flat_guards(gv, bi, brs):
-                if g[0] == "discr" and g[2] and g[2].endswith("fsm::SessionDownReason"):
-                    labs |= set(labels)
-                if g[0] == "discr" and g[2] and "Option" in g[2] and "shutdown" in expr_vars(g):
-                    labs |= {"<" + x + ">" for x in labels}
-            val = "true" if (e[0] == "const" and e[1] == 1) else "false" if (e[0] == "const" and e[1] == 0) else "cond"
-            for lb in labs or {"?"}:
-                reasons.setdefault(lb, set()).add(val)
-    bad = [k for k, v in reasons.items() if k in ("AdminShutdown", "FsmError") and v != {"false"}]
-    always = [k for k, v in reasons.items() if "true" in v and k not in ("IoError", "<None>", "<Some>")]
-    if bad or always:
-        r.fail(gv.name, "eligibility", "gr_on_disconnect enters helper mode for %s" % sorted(set(bad + always)), gv.loc())
-    elif reasons:
-        r.ok("gr_on_disconnect: unconditional only for TCP/IO drops; never for AdminShutdown/FsmError (%s)" % {k: sorted(v) for k, v in sorted(reasons.items())})
-    else:
-        r.unanalysable("gr_on_disconnect: classification not recognised", gv.loc())
-    # notification-dependent reasons must consult notification_enabled and is_hard_reset
-    toks = fn_tokens(prog, gk, depth=0)
-    if "field:notification_enabled" in toks and any(t.endswith("Notification::is_hard_reset") for t in toks if t.startswith("call:")):
-        r.ok("gr_on_disconnect consults the N-bit and is_hard_reset")
-    else:
-        r.fail(gv.name, "eligibility-nbit", "gr_on_disconnect no longer consults notification_enabled / is_hard_reset", gv.loc())
-
-
-CANCEL = re.compile(r"rustybgpd::event::PeerContext::cancel_gr_timer")
-FOLLOW = re.compile(r"rustybgpd::gr::GrState::process|rustybgpd::table_manager::TableManager::(drop_families|drop_stale_families|drop_llgr_stale_families)")
+            down = facts.get("down")
+            reasons = set(facts.get("reason") or (REASONS if down is not False else set()))
+            plain = down is False or reasons <= {"IoError"}
+            if res:
+                n_some += 1
+                if reasons & {"AdminShutdown", "FsmError"}:
+                    bad.append(("helper mode after %s" % sorted(reasons & {"AdminShutdown", "FsmError"}), facts))
+                elif not plain and facts.get("n_bit") is not True:
+                    bad.append(("helper mode after %s without the N bit (notification_enabled)" % sorted(reasons), facts))
+                elif not plain and facts.get("hard_reset") is True:
+                    bad.append(("helper mode after a hard reset", facts))
+            elif plain and down is not None:
+                bad.append(("no helper mode after a plain TCP / IO drop", facts))
+        if bad:
+            r.fail(gv.name, "eligibility", "gr_on_disconnect: %s (path facts: %s)" % (bad[0][0], sorted((k, str(v)) for k, v in bad[0][1].items())), gv.loc())
+        elif n_some == 0:
+            r.unanalysable("gr_on_disconnect: no path yields Some(gr)", gv.loc())
+        else:
+            r.ok("gr_on_disconnect: helper mode always after a TCP/IO drop, never after AdminShutdown/FsmError, otherwise only with the N bit and never after a hard reset (%d paths)" % len(rws))
 
 
 def check_timer_tasks(prog, r):
@@ -281,6 +292,10 @@ def check_timer_tasks(prog, r):
         else:
             r.fail(ix["name"], "timer-task-runs-on-cancel:" + tag, "the expiry handler also runs when the one-shot sender is dropped: cancelling the timer (peer reconnected) purges the routes", fv.loc(hcalls[0]))
     r.floor("one-shot timer tasks", n, 3)
+
+
+CANCEL = re.compile(r"rustybgpd::event::PeerContext::cancel_gr_timer")
+FOLLOW = re.compile(r"rustybgpd::gr::GrState::process|rustybgpd::table_manager::TableManager::(drop_families|drop_stale_families|drop_llgr_stale_families)")
 
 
 def check_cancel(prog, r):
